@@ -582,9 +582,10 @@ func (vm *VM) nextCall() bool {
 				if call.status == deferred {
 					vm.calls[i] = vm.calls[i+1]
 					vm.calls[i].status = panicked
-					if call.cl.fn != nil {
-						i++
-					}
+					// The panicked frame is now at index i: a Scriggo
+					// function resumes above it; after a native function,
+					// called here below, the unwinding goes on from it.
+					i++
 					break
 				}
 			}
